@@ -23,9 +23,24 @@ def run(v, tier, rng):
         v.add_tlc("dev/DeviceChain.tla:" + os.path.basename(cfg), r)
     for kind, cfg in (("reqrep", "Device_sim.cfg"), ("survey", "DeviceS_sim.cfg")):
         replay_sim(v, "device", kind, "dev/Device.tla", cfg, 8000 if thorough else 1500, 30, auto=True)
+    devlife_part(v, tier, rng)
     v.cov["distinct_nontrivial"] = sum(x["walks"] for x in v.cov["edge_cover"].values())
     v.cov["rule"] = ("chains of 0..4 devices x 5 ttl values per hop x 2 pipes, chains of 13..17 devices at ttl 14/15, rings of 1..3 devices "
                      "(model); behaviours of depth 30 with request backtraces of 0,1,2,14,15 hops with/without id and replies naming a live "
                      "pipe / a dead pipe / no pipe with 0,1,15 further hops, ttl 1,2,15 replayed on a real device; distinct = behaviours")
     v.assumptions += ["chains and rings are composed in the model from the per-hop operators; the implementation is bound hop by hop",
                       "at most one message per direction is in flight in the device replay"]
+
+
+def devlife_part(v, tier, rng, pred=None):
+    """dev/DevLife.tla: the device operation itself (start, forward, a path blocked in send, cancel in every state) on a one-way
+    (raw PULL -> raw PUSH) and a two-way (raw PAIR0) device.  Shared with C02."""
+    from checks.agg import Only
+    px = Only(v, pred, 1.0) if pred else v
+    for kind, mc, gen in (("pipeline", "DevLife_mc.cfg", "DevLife_gen.cfg"), ("pair", "DevLife2_mc.cfg", "DevLife2_gen.cfg")):
+        r = tlc("dev/DevLife.tla", mc, workers=4, timeout=900)
+        tlc_require_ok(r, "DevLife " + mc)
+        v.add_tlc("dev/DevLife.tla:" + mc, r)
+        replay_proto(px, "device", kind, "dev/DevLife.tla", gen, rng, maxlen=24, nrandom=100, auto=True)
+    if pred:
+        v.cov["divergences_outside_this_property"] = v.cov.get("divergences_outside_this_property", 0) + px.other
